@@ -1,1 +1,711 @@
-fn main() {}
+//! tsim - engine B: thread-schedule simulation of lock-free driver code with
+//! the `shuttle` scheduler (seeded random + PCT), see ENGINE_CONTRACT.md.
+//!
+//!   tsim run --property C18|C19 --tier quick|thorough --seed N --jobs N --out FILE
+//!            [--runs N] [--chunk N] [--budget-s N]
+//!   tsim replay FILE [--trace]
+//!
+//! A "case" is one shuttle execution. The workload of a case is drawn from
+//! `shuttle::rand`, so (schedule seed, schedule steps) determines it entirely;
+//! that pair is what a replay file stores.
+//!
+//! Cases are grouped in chunks; chunk `c` is one shuttle `Runner` whose
+//! scheduler (kind and seed) is a function of (--seed, part, c) only, so the
+//! batch does not depend on --jobs. Worker `k` (a forked, single-threaded
+//! process) runs the chunks `c % jobs == k`.
+
+mod c18;
+mod c19;
+mod sched;
+mod stats;
+
+use sched::{Finding, Fnv, Recording, mix, with_rec};
+use serde_json::{Value, json};
+use shuttle::scheduler::{PctScheduler, RandomScheduler, ReplayScheduler, Scheduler};
+use shuttle::{Config, FailurePersistence, MaxSteps, Runner};
+use stats::{Agg, with_agg};
+use std::collections::BTreeMap;
+use std::io::{Read, Write};
+use std::os::fd::FromRawFd;
+use std::panic::{AssertUnwindSafe, catch_unwind};
+use std::path::PathBuf;
+use std::time::{Duration, Instant};
+
+#[derive(Clone, Copy)]
+struct Part {
+    name: &'static str,
+    property: &'static str,
+    case: fn(bool),
+    install: fn(),
+    /// oracle a shuttle deadlock report is converted into (None: harness error)
+    deadlock_oracle: Option<&'static str>,
+    deadlock_detail: fn() -> String,
+    nontrivial_rule: &'static str,
+}
+
+fn no_detail() -> String {
+    String::new()
+}
+
+fn part_for(name: &str) -> Option<Part> {
+    match name {
+        "C18" => Some(Part {
+            name: "C18",
+            property: "C18",
+            case: c18::case,
+            install: c18::install,
+            deadlock_oracle: None,
+            deadlock_detail: no_detail,
+            nontrivial_rule: "two threads were inside next_timestamp at the same time (an event of one thread between call_start and call_end of another), or a clock fault fired (stall, repeated microsecond, step back, pre-epoch reading)",
+        }),
+        "C19" => Some(Part {
+            name: "C19",
+            property: "C19",
+            case: c19::case,
+            install: c19::install,
+            deadlock_oracle: Some("c19.lost_wakeup"),
+            deadlock_detail: c19::deadlock_detail,
+            nontrivial_rule: "a producer operation and a consumer operation overlapped (an event of one thread between op start and op end of the other), or a fault fired (recv cancelled, pending value retracted, receiver dropped before the sender)",
+        }),
+        _ => None,
+    }
+}
+
+fn arg(args: &[String], name: &str) -> Option<String> {
+    args.iter().position(|a| a == name).and_then(|i| args.get(i + 1).cloned())
+}
+
+fn flag(args: &[String], name: &str) -> bool {
+    args.iter().any(|a| a == name)
+}
+
+fn verif_dir() -> PathBuf {
+    std::env::var("VERIF_DIR").map(PathBuf::from).unwrap_or_else(|_| PathBuf::from("/verif"))
+}
+
+fn shuttle_config() -> Config {
+    let mut c = Config::new();
+    c.stack_size = 0x40000;
+    c.failure_persistence = FailurePersistence::None;
+    c.max_steps = MaxSteps::FailAfter(50_000);
+    c.silence_warnings = true;
+    c
+}
+
+/// Makes shuttle install its (process-global, once-only) panic hook now, then
+/// replaces it by ours: we own the schedule recording, so shuttle's
+/// persistence is not needed, and we need message + location of a panic to
+/// tell the code under test from the harness.
+fn init_panic_capture() {
+    let r = catch_unwind(|| {
+        Runner::new(RandomScheduler::new_from_seed(0, 1), shuttle_config()).run(|| {});
+    });
+    if r.is_err() {
+        eprintln!("tsim: shuttle self-test failed");
+        std::process::exit(2);
+    }
+    let verbose = std::env::var("TSIM_VERBOSE").is_ok();
+    std::panic::set_hook(Box::new(move |info| {
+        let msg = if let Some(s) = info.payload().downcast_ref::<&str>() {
+            s.to_string()
+        } else if let Some(s) = info.payload().downcast_ref::<String>() {
+            s.clone()
+        } else {
+            "<non-string panic payload>".to_string()
+        };
+        let loc = info.location().map(|l| format!("{}:{}", l.file(), l.line())).unwrap_or_default();
+        if verbose {
+            eprintln!("tsim: panic at {loc}: {msg}");
+        }
+        // Keep the FIRST panic of an execution: later ones are consequences.
+        sched::LAST_PANIC.with(|p| {
+            let mut p = p.borrow_mut();
+            if p.is_none() {
+                *p = Some((msg, loc));
+            }
+        });
+    }));
+}
+
+/// Turns a panic that escaped `Runner::run` into a finding.
+fn classify_panic(part: &Part, payload: Box<dyn std::any::Any + Send>) -> Finding {
+    let (mut msg, loc) = sched::LAST_PANIC.with(|p| p.borrow_mut().take()).unwrap_or_default();
+    if msg.is_empty() {
+        msg = if let Some(s) = payload.downcast_ref::<&str>() {
+            s.to_string()
+        } else if let Some(s) = payload.downcast_ref::<String>() {
+            s.clone()
+        } else {
+            String::new()
+        };
+    }
+    let lower = part.name.to_lowercase();
+    if msg.starts_with("deadlock!") {
+        return match part.deadlock_oracle {
+            Some(o) => Finding {
+                status: "violation",
+                oracle: o.to_string(),
+                msg: "merge_channel Receiver::recv: the consumer stays parked forever although a value is pending or the Sender is gone (shuttle deadlock report)".into(),
+                detail: format!("{}; shuttle: {}", (part.deadlock_detail)(), msg),
+            },
+            None => Finding {
+                status: "harness_error",
+                oracle: format!("{lower}.harness"),
+                msg: format!("unexpected deadlock: {msg}"),
+                detail: String::new(),
+            },
+        };
+    }
+    if msg.starts_with("exceeded max_steps") {
+        return Finding {
+            status: "timeout",
+            oracle: format!("{lower}.step_bound"),
+            msg: "an execution did not terminate within the step bound (livelock under the explored schedule)".into(),
+            detail: msg,
+        };
+    }
+    let in_code_under_test = loc.contains("/scylla/src/") || loc.contains("/tokio-") || loc.contains("/tokio/");
+    if in_code_under_test {
+        return Finding {
+            status: "crash",
+            oracle: format!("{lower}.panic"),
+            msg: format!("panic in the code under test at {}", loc.rsplit("/scylla/").next().unwrap_or(&loc)),
+            detail: msg,
+        };
+    }
+    Finding {
+        status: "harness_error",
+        oracle: format!("{lower}.harness"),
+        msg: format!("harness panic at {loc}: {msg}"),
+        detail: String::new(),
+    }
+}
+
+/// Accounts for an execution that ended in a panic (no `case_done` happened).
+fn record_panicked_case(f: Finding) {
+    let (hash, seed, steps) = with_rec(|r| {
+        r.active = false;
+        r.findings.clear();
+        (sched::history_hash(&r.events), r.seed, String::from_utf8_lossy(&r.steps).into_owned())
+    });
+    with_agg(|a| {
+        a.runs += 1;
+        a.bad_runs += 1;
+        a.status(f.status);
+        a.add_finding(f, seed, steps, hash);
+        a.cur_iter += 1;
+    });
+}
+
+fn scheduler_for(tier: &str, chunk: u64) -> (&'static str, usize) {
+    if tier == "thorough" {
+        match chunk % 4 {
+            0 | 1 => ("random", 0),
+            2 => ("pct2", 2),
+            _ => ("pct3", 3),
+        }
+    } else {
+        match chunk % 10 {
+            0..=5 => ("random", 0),
+            6 | 7 => ("pct2", 2),
+            _ => ("pct3", 3),
+        }
+    }
+}
+
+fn fnv_str(s: &str) -> u64 {
+    let mut h = Fnv::default();
+    h.bytes(s.as_bytes());
+    h.0
+}
+
+/// Upper bound on the number of history hashes kept over all workers.
+const HASH_CAP_TOTAL: u64 = 16_000_000;
+
+struct Plan {
+    part: Part,
+    tier: String,
+    seed: u64,
+    jobs: u64,
+    chunks: u64,
+    chunk_size: u64,
+    budget: Duration,
+}
+
+/// Body of one worker process. Returns (json, hashes).
+fn worker(plan: &Plan, k: u64, started: Instant) -> (Value, Vec<u64>) {
+    (plan.part.install)();
+    let hash_cap = (HASH_CAP_TOTAL / plan.jobs.max(1)) as usize;
+    with_agg(|a| {
+        *a = Agg::default();
+        a.hash_cap = hash_cap;
+        a.want_samples = if k == 0 { 3 } else { 0 };
+    });
+    let mut panics = 0u64;
+    let mut skipped = 0u64;
+    let mut budget_exhausted = false;
+    let mut stopped_after_panics = false;
+    let mut c = k;
+    while c < plan.chunks {
+        if started.elapsed() > plan.budget {
+            budget_exhausted = true;
+            break;
+        }
+        let (kind, depth) = scheduler_for(&plan.tier, c);
+        let sseed = mix(&[plan.seed, fnv_str(plan.part.name), c]);
+        let n = plan.chunk_size as usize;
+        let inner: Box<dyn Scheduler + Send> = if depth == 0 {
+            Box::new(RandomScheduler::new_from_seed(sseed, n))
+        } else {
+            Box::new(PctScheduler::new_from_seed(sseed, depth, n))
+        };
+        with_agg(|a| {
+            a.cur_chunk = c;
+            a.cur_base_index = c * plan.chunk_size;
+            a.cur_iter = 0;
+            a.cur_scheduler = kind.to_string();
+        });
+        let case = plan.part.case;
+        let inject = c == 3 && std::env::var("TSIM_INJECT_HARNESS_PANIC").is_ok();
+        let runner = Runner::new(Recording::new(inner), shuttle_config());
+        let res = catch_unwind(AssertUnwindSafe(|| {
+            runner.run(move || {
+                if inject {
+                    panic!("injected harness panic (self-test of the exit-code-2 path)");
+                }
+                case(stats::want_sample())
+            })
+        }));
+        if let Err(payload) = res {
+            panics += 1;
+            let f = classify_panic(&plan.part, payload);
+            record_panicked_case(f);
+            // The Runner is gone with the panic; the rest of this chunk is
+            // not re-run (recorded as skipped).
+            skipped += plan.chunk_size - with_agg(|a| a.cur_iter);
+            if panics >= 6 {
+                stopped_after_panics = true;
+                break;
+            }
+        }
+        c += plan.jobs;
+    }
+    let (mut j, hashes) = with_agg(|a| (a.to_json(), a.hashes.iter().copied().collect::<Vec<u64>>()));
+    j["panics"] = json!(panics);
+    j["skipped_after_panic"] = json!(skipped);
+    j["budget_exhausted"] = json!(budget_exhausted);
+    j["stopped_after_panics"] = json!(stopped_after_panics);
+    (j, hashes)
+}
+
+fn write_all_fd(fd: i32, mut data: &[u8]) {
+    while !data.is_empty() {
+        let n = unsafe { libc::write(fd, data.as_ptr() as *const libc::c_void, data.len()) };
+        if n <= 0 {
+            break;
+        }
+        data = &data[n as usize..];
+    }
+}
+
+fn merge_map(into: &mut BTreeMap<String, u64>, v: &Value) {
+    if let Some(o) = v.as_object() {
+        for (k, x) in o {
+            *into.entry(k.clone()).or_insert(0) += x.as_u64().unwrap_or(0);
+        }
+    }
+}
+
+fn cmd_run(args: &[String]) -> i32 {
+    let Some(pname) = arg(args, "--property") else {
+        eprintln!("--property required");
+        return 2;
+    };
+    let Some(part) = part_for(&pname) else {
+        eprintln!("tsim: unknown part {pname}");
+        return 2;
+    };
+    let tier = arg(args, "--tier").unwrap_or_else(|| "quick".into());
+    let seed: u64 = arg(args, "--seed").and_then(|s| s.parse().ok()).unwrap_or(1);
+    let jobs: u64 = arg(args, "--jobs").and_then(|s| s.parse().ok()).unwrap_or(16).clamp(1, 256);
+    let Some(out_path) = arg(args, "--out") else {
+        eprintln!("--out required");
+        return 2;
+    };
+    let (mut runs, default_chunk, mut budget_s): (u64, u64, u64) = if tier == "thorough" {
+        (10_000_000, 5_000, 13 * 60)
+    } else {
+        (200_000, 1_000, 50)
+    };
+    if let Some(r) = arg(args, "--runs").and_then(|s| s.parse().ok()) {
+        runs = r;
+    }
+    let chunk_size: u64 = arg(args, "--chunk").and_then(|s| s.parse().ok()).unwrap_or(default_chunk).max(2);
+    if let Some(b) = arg(args, "--budget-s").and_then(|s| s.parse().ok()) {
+        budget_s = b;
+    }
+    let chunks = runs.div_ceil(chunk_size).max(1);
+    let plan = Plan {
+        part,
+        tier: tier.clone(),
+        seed,
+        jobs,
+        chunks,
+        chunk_size,
+        budget: Duration::from_secs(budget_s),
+    };
+    let started = Instant::now();
+    let verbose = std::env::var("TSIM_VERBOSE").is_ok();
+
+    // ---- fan out ----
+    let mut kids: Vec<(i32, i32)> = Vec::new();
+    for k in 0..jobs {
+        let mut fds = [0i32; 2];
+        if unsafe { libc::pipe(fds.as_mut_ptr()) } != 0 {
+            eprintln!("tsim: pipe failed");
+            return 2;
+        }
+        let pid = unsafe { libc::fork() };
+        if pid < 0 {
+            eprintln!("tsim: fork failed");
+            return 2;
+        }
+        if pid == 0 {
+            unsafe { libc::close(fds[0]) };
+            for (_, rfd) in &kids {
+                unsafe { libc::close(*rfd) };
+            }
+            if !verbose {
+                // shuttle prints on every failing execution; findings travel in
+                // the worker's report instead
+                let devnull = unsafe { libc::open(c"/dev/null".as_ptr(), libc::O_WRONLY) };
+                if devnull >= 0 {
+                    unsafe { libc::dup2(devnull, 2) };
+                }
+            }
+            let r = catch_unwind(AssertUnwindSafe(|| worker(&plan, k, started)));
+            let (j, hashes) = match r {
+                Ok(x) => x,
+                Err(_) => (json!({"worker_failed": "panic outside an execution"}), Vec::new()),
+            };
+            let text = serde_json::to_vec(&j).unwrap_or_else(|_| b"{}".to_vec());
+            let mut buf: Vec<u8> = Vec::with_capacity(16 + text.len() + hashes.len() * 8);
+            buf.extend_from_slice(&(text.len() as u64).to_le_bytes());
+            buf.extend_from_slice(&text);
+            buf.extend_from_slice(&(hashes.len() as u64).to_le_bytes());
+            for h in &hashes {
+                buf.extend_from_slice(&h.to_le_bytes());
+            }
+            write_all_fd(fds[1], &buf);
+            unsafe { libc::_exit(0) };
+        }
+        unsafe { libc::close(fds[1]) };
+        kids.push((pid, fds[0]));
+    }
+
+    // ---- collect ----
+    let mut harness_errors: u64 = 0;
+    let mut harness_msgs: Vec<String> = Vec::new();
+    let mut runs_done = 0u64;
+    let mut bad_runs = 0u64;
+    let mut nontrivial = 0u64;
+    let mut fault_free = 0u64;
+    let mut by_status: BTreeMap<String, u64> = BTreeMap::new();
+    let mut faults: BTreeMap<String, u64> = BTreeMap::new();
+    let mut probes: BTreeMap<String, u64> = BTreeMap::new();
+    let mut counters: BTreeMap<String, u64> = BTreeMap::new();
+    let mut samples: Vec<Value> = Vec::new();
+    let mut all_hashes: Vec<u64> = Vec::new();
+    let mut cap_hit = false;
+    let mut budget_exhausted = false;
+    let mut classes: BTreeMap<String, (Value, u64)> = BTreeMap::new();
+    for (pid, rfd) in kids {
+        let mut data = Vec::new();
+        {
+            let mut f = unsafe { std::fs::File::from_raw_fd(rfd) };
+            let _ = f.read_to_end(&mut data);
+        }
+        let mut status = 0;
+        unsafe { libc::waitpid(pid, &mut status, 0) };
+        let clean = libc::WIFEXITED(status) && libc::WEXITSTATUS(status) == 0;
+        let parsed = (|| -> Option<(Value, Vec<u64>)> {
+            let jl = u64::from_le_bytes(data.get(0..8)?.try_into().ok()?) as usize;
+            let j: Value = serde_json::from_slice(data.get(8..8 + jl)?).ok()?;
+            let off = 8 + jl;
+            let n = u64::from_le_bytes(data.get(off..off + 8)?.try_into().ok()?) as usize;
+            let raw = data.get(off + 8..off + 8 + n * 8)?;
+            let hs = raw.chunks_exact(8).map(|c| u64::from_le_bytes(c.try_into().unwrap())).collect();
+            Some((j, hs))
+        })();
+        let Some((j, hs)) = parsed.filter(|(j, _)| clean && j.get("worker_failed").is_none()) else {
+            harness_errors += 1;
+            harness_msgs.push(format!("worker pid {pid} ended with wait status {status} without a usable report"));
+            continue;
+        };
+        runs_done += j["runs"].as_u64().unwrap_or(0);
+        bad_runs += j["bad_runs"].as_u64().unwrap_or(0);
+        nontrivial += j["nontrivial"].as_u64().unwrap_or(0);
+        fault_free += j["fault_free_runs"].as_u64().unwrap_or(0);
+        merge_map(&mut by_status, &j["by_status"]);
+        merge_map(&mut faults, &j["faults"]);
+        merge_map(&mut probes, &j["probes"]);
+        merge_map(&mut counters, &j["counters"]);
+        *counters.entry("executions_aborted_by_panic".into()).or_insert(0) += j["panics"].as_u64().unwrap_or(0);
+        *counters.entry("runs_skipped_after_panic".into()).or_insert(0) += j["skipped_after_panic"].as_u64().unwrap_or(0);
+        cap_hit |= j["hash_cap_hit"].as_bool().unwrap_or(false);
+        budget_exhausted |= j["budget_exhausted"].as_bool().unwrap_or(false) || j["stopped_after_panics"].as_bool().unwrap_or(false);
+        *counters.entry("workers_stopped_after_6_panics".into()).or_insert(0) += j["stopped_after_panics"].as_bool().unwrap_or(false) as u64;
+        if let Some(s) = j["samples"].as_array() {
+            samples.extend(s.iter().cloned());
+        }
+        all_hashes.extend(hs);
+        if let Some(cl) = j["classes"].as_array() {
+            for c in cl {
+                let class = c["class"].as_str().unwrap_or("").to_string();
+                let n = c["n"].as_u64().unwrap_or(0);
+                let first = c["first"].clone();
+                match classes.get_mut(&class) {
+                    Some(e) => {
+                        e.1 += n;
+                        if first["run_index"].as_u64() < e.0["run_index"].as_u64() {
+                            e.0 = first;
+                        }
+                    }
+                    None => {
+                        classes.insert(class, (first, n));
+                    }
+                }
+            }
+        }
+    }
+
+    // ---- one replay file per violation class, verified in a fresh process ----
+    let replay_dir = verif_dir().join("replays");
+    let _ = std::fs::create_dir_all(&replay_dir);
+    let exe = std::env::current_exe().ok();
+    let mut violations: Vec<Value> = Vec::new();
+    for (class, (first, n)) in &classes {
+        let status = first["status"].as_str().unwrap_or("");
+        let oracle = first["oracle"].as_str().unwrap_or("");
+        if status == "harness_error" {
+            harness_errors += n;
+            harness_msgs.push(format!("{} (run {})", first["msg"].as_str().unwrap_or(""), first["run_index"]));
+            continue;
+        }
+        let run_index = first["run_index"].as_u64().unwrap_or(0);
+        let what = oracle.rsplit('.').next().unwrap_or("x");
+        let path = replay_dir.join(format!("{}-{}-{}-{}.json", part.name, seed, run_index, what));
+        let replay = json!({
+            "engine": "tsim",
+            "property": part.property,
+            "part": part.name,
+            "tier": tier,
+            "base_seed": seed,
+            "run_index": run_index,
+            "chunk": first["chunk"],
+            "scheduler": first["scheduler"],
+            "expected": {"status": status, "oracle": oracle, "msg": first["msg"], "detail": first["detail"], "history_hash": first["hash"]},
+            "schedule": {"seed": first["sched_seed"], "steps": first["steps"],
+                         "format": "one char per shuttle schedule step: base-36 task id = run that task, R = one draw from shuttle::rand"},
+            "minimised": false,
+        });
+        let mut reproduced = false;
+        if std::fs::write(&path, serde_json::to_string_pretty(&replay).unwrap()).is_ok() {
+            if let Some(exe) = &exe {
+                if let Ok(o) = std::process::Command::new(exe).arg("replay").arg(&path).stderr(std::process::Stdio::null()).output() {
+                    let text = String::from_utf8_lossy(&o.stdout);
+                    reproduced = o.status.code() == Some(1) && text.contains("same_class=true");
+                }
+            }
+        } else {
+            harness_errors += 1;
+            harness_msgs.push(format!("cannot write {}", path.display()));
+        }
+        violations.push(json!({
+            "class": class, "oracle": oracle, "status": status,
+            "msg": first["msg"], "first_msg": format!("{} [{}]", first["msg"].as_str().unwrap_or(""), first["detail"].as_str().unwrap_or("")),
+            "run_index": run_index, "scheduler": first["scheduler"],
+            "replay": path.to_string_lossy(), "reproduced_on_replay": reproduced, "runs_in_class": n,
+            "schedule_steps": first["steps"].as_str().map(|s| s.len()).unwrap_or(0),
+        }));
+    }
+    all_hashes.sort_unstable();
+    all_hashes.dedup();
+    samples.sort_by_key(|s| s["run_index"].as_u64().unwrap_or(0));
+    counters.insert("distinct_hash_set_cap".into(), HASH_CAP_TOTAL);
+    counters.insert("distinct_hash_set_cap_hit".into(), cap_hit as u64);
+    let wall = started.elapsed().as_secs_f64();
+    let result = json!({
+        "property": part.name, "tier": tier, "seed": seed, "jobs": jobs,
+        "runs_requested": chunks * chunk_size,
+        "agg": {
+            "runs": runs_done, "by_status": by_status, "virt_ns": "0",
+            "faults": faults, "probes": probes, "counters": counters,
+            "nontrivial": nontrivial, "fault_free_runs": fault_free,
+            "samples": samples, "budget_exhausted": budget_exhausted,
+        },
+        "distinct_nontrivial": all_hashes.len(),
+        "distinct_nontrivial_note": "distinct FNV-1a hashes of the observed history (task, event, values in global order) of non-trivial cases; the set is capped at 16e6/jobs entries per worker (distinct_hash_set_cap_hit tells whether the cap was reached, the number is then a lower bound)",
+        "nontrivial_rule": part.nontrivial_rule,
+        "schedulers": if tier == "thorough" { "per chunk: 50% seeded RandomScheduler, 25% PctScheduler depth 2, 25% PctScheduler depth 3" } else { "per chunk: 60% seeded RandomScheduler, 20% PctScheduler depth 2, 20% PctScheduler depth 3" },
+        "chunks": chunks, "chunk_size": chunk_size,
+        "violations": violations, "bad_runs": bad_runs, "harness_errors": harness_errors,
+        "harness_error_msgs": harness_msgs,
+        "wall_s": wall, "runs_per_s": if wall > 0.0 { runs_done as f64 / wall } else { 0.0 },
+    });
+    if std::fs::write(&out_path, serde_json::to_string(&result).unwrap()).is_err() {
+        eprintln!("tsim: cannot write {out_path}");
+        return 2;
+    }
+    for m in &harness_msgs {
+        eprintln!("tsim: harness error: {m}");
+    }
+    if harness_errors > 0 {
+        return 2;
+    }
+    if violations.is_empty() { 0 } else { 1 }
+}
+
+fn cmd_replay(args: &[String]) -> i32 {
+    let Some(path) = args.get(2) else {
+        eprintln!("usage: tsim replay <file> [--trace]");
+        return 2;
+    };
+    let v: Value = match std::fs::read_to_string(path).ok().and_then(|t| serde_json::from_str(&t).ok()) {
+        Some(v) => v,
+        None => {
+            eprintln!("tsim: cannot read replay file {path}");
+            return 2;
+        }
+    };
+    if v["engine"].as_str() != Some("tsim") {
+        eprintln!("tsim: not a tsim replay file");
+        return 2;
+    }
+    let pname = v["part"].as_str().or(v["property"].as_str()).unwrap_or("");
+    let Some(part) = part_for(pname) else {
+        eprintln!("tsim: unknown part {pname}");
+        return 2;
+    };
+    let seed = v["schedule"]["seed"].as_u64().unwrap_or(0);
+    let steps = v["schedule"]["steps"].as_str().unwrap_or("").to_string();
+    let schedule = match sched::schedule_from(seed, &steps) {
+        Ok(s) => s,
+        Err(e) => {
+            eprintln!("tsim: {e}");
+            return 2;
+        }
+    };
+    (part.install)();
+    with_agg(|a| {
+        *a = Agg::default();
+        a.hash_cap = 16;
+        a.want_samples = 1;
+        a.cur_base_index = v["run_index"].as_u64().unwrap_or(0);
+        a.cur_chunk = v["chunk"].as_u64().unwrap_or(0);
+        a.cur_scheduler = "replay".into();
+    });
+    let mut rs = ReplayScheduler::new_from_schedule(schedule);
+    // The recorded schedule of a case that did not panic ends where the
+    // workload closure finished; tolerate shuttle wanting one more decision.
+    rs.set_allow_incomplete();
+    let case = part.case;
+    let runner = Runner::new(Recording::new(rs), shuttle_config());
+    let res = catch_unwind(AssertUnwindSafe(|| runner.run(move || case(true))));
+    let mut diverged = false;
+    if let Err(payload) = res {
+        let in_replay_scheduler = sched::LAST_PANIC.with(|p| p.borrow().as_ref().is_some_and(|(_, loc)| loc.ends_with("/replay.rs") || loc.contains("/replay.rs:")));
+        if in_replay_scheduler {
+            // ReplayScheduler refuses to continue: the code under test no
+            // longer makes the recorded sequence of scheduling/random requests.
+            let (m, _) = sched::LAST_PANIC.with(|p| p.borrow_mut().take()).unwrap_or_default();
+            println!("schedule diverged: {m}");
+            with_rec(|r| r.active = false);
+            diverged = true;
+        } else {
+            record_panicked_case(classify_panic(&part, payload));
+        }
+    }
+    let (events, replayed_steps) = with_rec(|r| (r.events.clone(), String::from_utf8_lossy(&r.steps).into_owned()));
+    if flag(args, "--trace") {
+        println!("--- history ({} events; schedule {} steps, seed {}) ---", events.len(), steps.len(), seed);
+        for l in sched::render(&events) {
+            println!("{l}");
+        }
+        println!("--- schedule steps: {replayed_steps}");
+    }
+    let (findings, sample, runs) = with_agg(|a| {
+        (
+            a.classes.values().map(|(b, _)| b.clone()).collect::<Vec<_>>(),
+            a.samples.first().cloned(),
+            a.runs,
+        )
+    });
+    if let Some(s) = sample {
+        println!("case: {}", s["case"]);
+    }
+    let same_schedule = replayed_steps == steps || steps.starts_with(&replayed_steps) || replayed_steps.starts_with(&steps);
+    let exp = &v["expected"];
+    let mut same_class = false;
+    let mut violation = false;
+    if runs == 0 && !diverged && findings.is_empty() {
+        // allow_incomplete: the recorded steps ran out while tasks were still
+        // running, i.e. this build takes a different path than the recorded one
+        println!("recorded schedule exhausted before the case finished: the code under test no longer follows the recorded execution");
+    }
+    let mut harness = false;
+    for b in &findings {
+        println!("finding: status={} oracle={} msg={} [{}]", b.finding.status, b.finding.oracle, b.finding.msg, b.finding.detail);
+        if b.finding.status == "harness_error" {
+            harness = true;
+        } else {
+            violation = true;
+        }
+        if exp["status"].as_str() == Some(b.finding.status) && exp["oracle"].as_str() == Some(b.finding.oracle.as_str()) {
+            same_class = true;
+        }
+    }
+    let hash = format!("{:016x}", sched::history_hash(&events));
+    println!(
+        "replay: expected {}:{} got {} same_class={} same_history_hash={} schedule_followed={} ({} of {} recorded steps)",
+        exp["status"].as_str().unwrap_or("?"),
+        exp["oracle"].as_str().unwrap_or("?"),
+        if findings.is_empty() { "ok".to_string() } else { findings.iter().map(|b| format!("{}:{}", b.finding.status, b.finding.oracle)).collect::<Vec<_>>().join(",") },
+        same_class,
+        exp["history_hash"].as_str() == Some(hash.as_str()),
+        same_schedule,
+        replayed_steps.len().min(steps.len()),
+        steps.len(),
+    );
+    if harness {
+        eprintln!("tsim: harness error during replay");
+        return 2;
+    }
+    if violation {
+        println!("VIOLATION property={} replay={}", part.property, path);
+        1
+    } else {
+        println!("no violation on replay");
+        0
+    }
+}
+
+fn main() {
+    // The seeded schedulers would silently prefer this variable to our seeds.
+    unsafe { std::env::remove_var("SHUTTLE_RANDOM_SEED") };
+    let args: Vec<String> = std::env::args().collect();
+    let cmd = args.get(1).map(|s| s.as_str()).unwrap_or("");
+    if cmd == "run" || cmd == "replay" {
+        init_panic_capture();
+    }
+    let code = match cmd {
+        "run" => cmd_run(&args),
+        "replay" => cmd_replay(&args),
+        _ => {
+            eprintln!("usage: tsim run --property C18|C19 --tier quick|thorough --seed N --jobs N --out FILE | tsim replay FILE [--trace]");
+            2
+        }
+    };
+    let _ = std::io::stdout().flush();
+    std::process::exit(code);
+}
